@@ -113,7 +113,7 @@ macro_rules! parts {
                 Tier::Thorough => &alpha_main,
             },
             depth: tier.pick(3, 4),
-            seconds: tier.pick(15.0, 1500.0),
+            seconds: tier.pick(25.0, 1500.0),
             validated: false,
             nontrivial: None,
         };
@@ -121,12 +121,12 @@ macro_rules! parts {
             name: "alt-resize-deep",
             sys: &Sys,
             cfgs: match tier {
-                Tier::Quick => cfgs(&[(3, 2), (2, 2), (1, 2)], &[None, Some(0)]),
+                Tier::Quick => cfgs(&[(3, 2), (2, 2)], &[None, Some(0)]),
                 Tier::Thorough => cfgs(&[(3, 2), (2, 2), (1, 2)], &[None, Some(0), Some(2)]),
             },
             alphabet: &alpha_deep,
             depth: tier.pick(6, 7),
-            seconds: tier.pick(20.0, 2400.0),
+            seconds: tier.pick(30.0, 2400.0),
             validated: false,
             nontrivial: None,
         };
